@@ -184,6 +184,60 @@ def c03_self(ta: T9, ma: int, sa: int, fa: int) -> bool:
                      _binary_oracle, realize_obs=False)
 
 
+# three-state operands: (edges (q, sym 0=eps 1=a 2=b, t), starts, finals)
+SHAPES3 = [
+    ([(0, 1, 1), (1, 2, 2), (2, 1, 1)], [0], [1]),            # a (b a)*   : final state on a cycle through another state
+    ([(0, 1, 1), (1, 2, 2), (2, 2, 1)], [0], [1, 2]),
+    ([(0, 1, 1), (1, 1, 2), (2, 1, 0)], [0], [0]),            # (aaa)*
+    ([(0, 1, 1), (0, 2, 2), (1, 2, 1), (2, 1, 2)], [0], [1, 2]),
+    ([(0, 0, 1), (1, 1, 2), (2, 2, 1)], [0], [2]),            # eps then a (b a)*
+    ([(0, 1, 1), (1, 2, 2), (2, 1, 1), (1, 1, 1)], [0], [1]),  # loop + cycle
+    ([(0, 1, 2), (1, 2, 2), (2, 1, 1)], [0, 1], [2]),         # two start states
+    ([(0, 1, 1), (1, 2, 0), (1, 1, 2), (2, 2, 2)], [0], [2]),
+]
+SECOND3 = [([(0, 1, 1)], [0], [1]), ([(0, 2, 0)], [0], [0]), ([(0, 1, 1), (1, 2, 0)], [0], [0, 1])]
+
+
+def _shapes_oracle(args, obs):
+    shape, second = args
+    ea, sa, fa = SHAPES3[shape]
+    eb, sb, fb = SECOND3[second]
+    ra = enc.ref_enfa(3, ea, sa, fa)
+    rb = enc.ref_enfa(2, eb, sb, fb)
+    tags = operand_tags(ra, "a_") + ["three_state_operand"]
+    wants = {"kleene_star": lambda: O.star(ra), "get_complement": lambda: O.complement(ra),
+             "reverse": lambda: O.reverse(ra), "union": lambda: O.union(ra, rb),
+             "concatenate": lambda: O.concat(ra, rb), "concatenate_rev": lambda: O.concat(rb, ra),
+             "get_intersection": lambda: O.combine([ra, rb], lambda x, y: x and y),
+             "get_difference": lambda: O.combine([ra, rb], lambda x, y: x and not y)}
+    fails = []
+    for op, res in obs:
+        compare(op, res, wants[op](), tags, fails)
+    return True, fails, {"a": ra.describe(), "b": rb.describe()}
+
+
+def c03_shapes(shape: int, second: int) -> bool:
+    """
+    pre: pinned(shape=shape)
+    pre: ((0 <= shape) & (shape < 8)) & ((0 <= second) & (second < 3))
+    post: _
+    """
+    raw = (shape, second)
+    sh = enc.pick(shape, len(SHAPES3))
+    se = enc.pick(second, len(SECOND3))
+    ea, sa, fa = SHAPES3[sh]
+    eb, sb, fb = SECOND3[se]
+    chx.enter("c03_shapes", raw)
+    A = enc.build_enfa(EpsilonNFA, 3, ea, sa, fa)
+    B = enc.build_enfa(EpsilonNFA, 2, eb, sb, fb)
+    obs = [("kleene_star", chx.guarded(A.kleene_star)), ("get_complement", chx.guarded(A.get_complement)),
+           ("reverse", chx.guarded(A.reverse)), ("union", chx.guarded(A.union, B)),
+           ("concatenate", chx.guarded(A.concatenate, B)), ("concatenate_rev", chx.guarded(B.concatenate, A)),
+           ("get_intersection", chx.guarded(A.get_intersection, B)),
+           ("get_difference", chx.guarded(A.get_difference, B))]
+    return chx.judge("C03", "c03_shapes", raw, (sh, se), obs, _shapes_oracle, realize_obs=False)
+
+
 def _sh_unary(tier):
     if tier == "quick":
         return product_pins(k=[1, 2], m=[0, 1, 2], starts=[0, 1, 3], finals=[1, 2, 3])
@@ -228,6 +282,10 @@ CONDS = [
     Cond("C03", c03_rational, _sh_rational,
          {"quick": "ordered pairs A (1 edge) x B (0-1 edges), as above: union, concatenate",
           "thorough": "A <=2 edges x B <=1 edge, more masks"},
+         FUNCS, RULE),
+    Cond("C03", c03_shapes, lambda tier: product_pins(shape=list(range(8))),
+         {"quick": "8 hand-picked three-state operands (final state on a cycle through another state, eps, two start "
+                   "states, loops) x 3 second operands: all unary and binary operations", "thorough": "same"},
          FUNCS, RULE),
     Cond("C03", c03_self, _sh_self,
          {"quick": "A op A (same object) for A with 1-2 edges over {a}: intersection, difference, union, concatenate",
